@@ -126,6 +126,8 @@ def ctl_scope(k):
         return fm.ctl_repeated()
     if k == 'nary':
         return fm.ctl_nary()
+    if k == 'twins':
+        return fm.ctl_twins()
     return fm.ctl_formulas(k)
 
 
@@ -218,21 +220,22 @@ def run(ctx):
     if ctx.thorough:
         scopes = [(1, 2, 1), (2, 2, 1), (3, 1, 1), (3, 2, 97), (4, 1, 211), (3, 'k3', 11), (4, 'k3', 20011),
                   (4, 2, 20011), (5, 1, 4000037), (2, 'rep', 1), (3, 'rep', 23), (4, 'rep', 100003),
-                  (2, 'nary', 1), (3, 'nary', 23), (4, 'nary', 100003)]
+                  (2, 'nary', 1), (3, 'nary', 23), (4, 'nary', 100003),
+                  (2, 'twins', 1), (3, 'twins', 7), (4, 'twins', 20011)]
         ctx.scopes = ['S(1)+S(2) x CTL k<=2 (8964 formulas)', 'S(3) x CTL k<=1 (144 formulas)',
                       'every 97th structure of S(3) x CTL k<=2',
                       'every 211th structure of S(4) (61422 of 12.96 M) x CTL k<=1',
                       'every 11th of S(3) and every 20011th of S(4) x k3 (every 37th CTL formula with exactly 3 operators over p,q)',
                       'every 20011th of S(4) x CTL k<=2', 'every 4000037th of S(5) x CTL k<=1',
-                      'S(2), every 23rd of S(3), every 100003rd of S(4) x rep (2160 CTL formulas with a repeated quantified subformula) and x nary (2170 formulas with 3- and 4-ary and/or)']
+                      'S(2), every 23rd of S(3), every 100003rd of S(4) x rep (2160 CTL formulas with a repeated quantified subformula) and x nary (3- and 4-ary and/or, also with duplicate operands) and x twins (280 formulas containing a formula together with its restricted-syntax rewriting)']
     else:
         scopes = [(1, 2, 1), (2, 1, 1), (2, 2, 9), (3, 1, 8), (4, 1, 4001), (3, 'k3', 101), (4, 'k3', 400009),
-                  (5, 1, 40000003), (2, 'rep', 6), (3, 'rep', 401), (2, 'nary', 6), (3, 'nary', 401)]
+                  (5, 1, 40000003), (2, 'rep', 6), (3, 'rep', 401), (2, 'nary', 6), (3, 'nary', 401), (2, 'twins', 2), (3, 'twins', 101), (4, 'twins', 400009)]
         ctx.scopes = ['S(1) x CTL k<=2', 'S(2) x CTL k<=1', 'every 9th of S(2) x CTL k<=2',
                       'every 8th of S(3) x CTL k<=1', 'every 4001st of S(4) x CTL k<=1',
                       'every 101st of S(3) and every 400009th of S(4) x k3 (every 37th CTL formula with exactly 3 operators over p,q)',
                       'every 40000003rd of S(5) x CTL k<=1',
-                      'every 6th of S(2) and every 401st of S(3) x rep (2160 CTL formulas with a repeated quantified subformula) and x nary (2170 formulas with 3- and 4-ary and/or)']
+                      'every 6th of S(2) and every 401st of S(3) x rep (2160 CTL formulas with a repeated quantified subformula) and x nary (3- and 4-ary and/or, also with duplicate operands) and x twins (280 formulas containing a formula together with its restricted-syntax rewriting)']
     ctx.exhaustive = True
     ctx.assumptions = ['reference semantics vp/ref.py (R-CTL, cross-checked against R-STAR in '
                        'the random tier and on replay) is the trusted base']
